@@ -98,6 +98,25 @@ pub fn snapshot(sim: &Sim) -> Vec<LinkSnap> {
         .collect()
 }
 
+/// Accessor-visible state of the registration manager.
+#[derive(Clone, Debug, PartialEq, Eq)]
+pub struct RegSnap {
+    pub id: [u8; 256],
+    pub pending: Option<usize>,
+    pub pending_timeout_at: u64,
+    pub target: Option<usize>,
+    pub next_send_at: u64,
+    pub broadcast_pending: bool,
+    pub active: usize,
+    pub has_connected: bool,
+    pub probing: bool,
+}
+
+pub fn reg_snapshot(sim: &Sim) -> RegSnap {
+    let r = &sim.reg;
+    RegSnap { id: *r.srtla_id(), pending: r.pending_reg2_idx(), pending_timeout_at: r.pending_timeout_at_ms(), target: r.reg1_target_idx(), next_send_at: r.reg1_next_send_at_ms(), broadcast_pending: r.broadcast_reg2_pending(), active: r.active_connections(), has_connected: r.has_connected(), probing: r.is_probing() }
+}
+
 #[derive(Clone, Debug)]
 pub enum ArmKind {
     Client { inj: usize },
@@ -135,6 +154,8 @@ pub struct ArmRecord {
     /// per-link outstanding sequence numbers before the arm (filled for NAK uplink arms only)
     pub pre_logs: Vec<(u64, std::collections::BTreeSet<i32>)>,
     pub client_known_pre: bool,
+    pub reg_pre: Option<RegSnap>,
+    pub reg_post: Option<RegSnap>,
 }
 
 #[derive(Clone, Debug)]
@@ -197,6 +218,8 @@ pub struct Driver {
     pub last_flush: u64,
     pub opts: StreamOpts,
     pub capture_logs_always: bool,
+    pub capture_reg: bool,
+    reg_pre: Option<RegSnap>,
     client_known_pre: bool,
 }
 
@@ -208,7 +231,7 @@ impl Driver {
         let mut rxm = SimReceiver::new();
         rxm.loss_permille = 0;
         rxm.max_delay = *rng.pick(&[0u64, 5, 40, 40, 150]);
-        Driver { sim, rxm, inj: Vec::new(), by_bytes: HashMap::new(), arm_no: 0, broken: Vec::new(), next_seq: rng.below(1 << 30) as u32, uid: 1, arm_codes: Vec::new(), last_hk: t0, last_flush: t0, opts, capture_logs_always: false, client_known_pre: false }
+        Driver { sim, rxm, inj: Vec::new(), by_bytes: HashMap::new(), arm_no: 0, broken: Vec::new(), next_seq: rng.below(1 << 30) as u32, uid: 1, arm_codes: Vec::new(), last_hk: t0, last_flush: t0, opts, capture_logs_always: false, capture_reg: false, reg_pre: None, client_known_pre: false }
     }
 
     #[allow(clippy::too_many_arguments)]
@@ -240,6 +263,8 @@ impl Driver {
             critical_open: self.sim.critical.is_critical_now(t),
             pre_logs,
             client_known_pre: self.client_known_pre,
+            reg_pre: self.reg_pre.take(),
+            reg_post: if self.capture_reg { Some(reg_snapshot(&self.sim)) } else { None },
         };
         rep.t(|| {
             format!(
@@ -300,6 +325,9 @@ impl Driver {
         let last_pre = self.sim.last_selected_idx;
         let established = self.sim.reg.has_connected;
         self.client_known_pre = self.sim.last_client_addr.is_some();
+        if self.capture_reg {
+            self.reg_pre = Some(reg_snapshot(&self.sim));
+        }
         let pre_logs = if self.capture_logs_always || rc::ptype(&bytes) == Some(0x8003) { self.sim.conns.iter().map(|c| (c.conn_id, c.packet_log.keys().copied().collect())).collect() } else { Vec::new() };
         self.sim.arm_uplink(conn_id, &bytes);
         self.record_with_logs(ArmKind::Uplink { conn_id, bytes, what }, pre, pre_logs, last_pre, established, rng, mons, rep);
@@ -318,6 +346,9 @@ impl Driver {
         let pre = snapshot(&self.sim);
         let last_pre = self.sim.last_selected_idx;
         let established = self.sim.reg.has_connected;
+        if self.capture_reg {
+            self.reg_pre = Some(reg_snapshot(&self.sim));
+        }
         let ok = self.sim.arm_housekeeping().is_ok();
         self.last_hk = self.sim.now;
         self.record(ArmKind::Housekeeping { ok }, pre, last_pre, established, rng, mons, rep);
